@@ -126,8 +126,14 @@ class BorrowedResources(BaseResources[T]):
         # do not postpone if we can resume immediately
         if not self._resources._available >= self._debits:
             await (self._resources._available >= self._debits)
-        await self._resources.__remove_resources__(self._debits)
-        await self.__insert_resources__(self._debits)
+        try:
+            await self._resources.__remove_resources__(self._debits)
+            await self.__insert_resources__(self._debits)
+        except BaseException:
+            # We were interrupted while postponed after taking the resources.
+            # The block is not entered, so __aexit__ will never return them.
+            self.__return_resources__()
+            raise
         return self
 
     async def __aexit__(self, exc_type, exc_val, exc_tb):
@@ -141,9 +147,20 @@ class BorrowedResources(BaseResources[T]):
                 self._resources.__insert_resources__(self._debits)
             )
         else:
-            await self.__remove_resources__(self._debits)
+            try:
+                await self.__remove_resources__(self._debits)
+            except BaseException:
+                # interrupted before the resources were handed back
+                self.__return_resources__()
+                raise
             await self._resources.__insert_resources__(self._debits)
             # TODO: forcefully kill off anyone holding our resources?
+
+    def __return_resources__(self):
+        """Return the debits to the parent if the current activity may not wait"""
+        __USIM_STATE__.loop.schedule(
+            self._resources.__insert_resources__(self._debits)
+        )
 
     def borrow(self, **amounts: T) -> 'BorrowedResources[T]':
         borrowing = super().borrow(**amounts)
